@@ -15,15 +15,17 @@ const (
 )
 
 type tmplCfg struct {
-	outputs   int  // 1..2
-	hidden    int  // 0..2
-	genes     int  // number of connection genes
-	traits    int  // 1..2
-	nilTraits bool // nodes/links may carry a nil trait (forked)
-	params    int  // trait parameter count
-	fixedBase bool // first two genes are input->out1 and bias->out1 (XOR-like start), remaining ones forked
-	symRecur  bool // recurrent flags symbolic (else false)
-	symEnable bool // enabled flags symbolic (else true)
+	outputs   int      // 1..2
+	hidden    int      // 0..2
+	genes     int      // number of connection genes
+	traits    int      // 1..2
+	nilTraits bool     // nodes/links may carry a nil trait (forked)
+	params    int      // trait parameter count
+	fixedBase bool     // first two genes are input->out1 and bias->out1 (XOR-like start), remaining ones forked
+	symRecur  bool     // recurrent flags symbolic (else false)
+	symEnable bool     // enabled flags symbolic (else true)
+	links     [][2]int // explicit endpoints (indices into the node list) for the first len(links) genes
+	biasFree  bool     // with fixedBase: the second base gene is input->last node, so the bias sensor is unconnected
 }
 
 func tTraits(tag string, c tmplCfg) []*neat.Trait {
@@ -92,8 +94,13 @@ func tGenes(tag string, ts []*neat.Trait, nodes []*network.NNode, c tmplCfg) []*
 	nonSensors := len(nodes) - 2
 	for i := 0; i < c.genes; i++ {
 		var inN, outN *network.NNode
-		if c.fixedBase && i < 2 {
+		if i < len(c.links) {
+			inN, outN = nodes[c.links[i][0]], nodes[c.links[i][1]]
+		} else if c.fixedBase && i < 2 {
 			inN, outN = nodes[i], nodes[2]
+			if c.biasFree && i == 1 {
+				inN, outN = nodes[0], nodes[len(nodes)-1]
+			}
 		} else {
 			inN = nodes[vChoice(tag+".gene.in", len(nodes))]
 			outN = nodes[2+vChoice(tag+".gene.out", nonSensors)]
@@ -148,9 +155,8 @@ func wfCheck(g *Genome, tag string) {
 	for i := 0; i < len(g.Genes); i++ {
 		for j := i + 1; j < len(g.Genes); j++ {
 			a, b := g.Genes[i].Link, g.Genes[j].Link
-			if a.InNode.Id == b.InNode.Id && a.OutNode.Id == b.OutNode.Id {
-				nodup = vAnd(nodup, a.IsRecurrent != b.IsRecurrent)
-			}
+			same := vAnd(a.InNode.Id == b.InNode.Id, a.OutNode.Id == b.OutNode.Id)
+			nodup = vAnd(nodup, !vAnd(same, a.IsRecurrent == b.IsRecurrent))
 		}
 	}
 	vAssert(nodup, tag+": no two genes join the same ordered node pair with the same recurrence flag")
@@ -213,11 +219,11 @@ func ioRetained(g, anc *Genome, tag string) {
 		}
 		found := false
 		for _, m := range g.Nodes {
-			if m.Id == n.Id && m.NeuronType == n.NeuronType {
-				found = true
+			if m.NeuronType == n.NeuronType {
+				found = vOr(found, m.Id == n.Id)
 			}
 		}
-		ok = ok && found
+		ok = vAnd(ok, found)
 	}
 	vAssert(ok, tag+": all input, bias and output nodes of the ancestors are retained")
 }
@@ -339,11 +345,13 @@ func sameSnap(a, b *genomeSnap) bool {
 
 // ---------- options ----------
 
+var tNewLinkTries = 1
+
 func tOpts() *neat.Options {
 	o := &neat.Options{}
 	o.NodeActivators = []neatmath.NodeActivationType{neatmath.SigmoidSteepenedActivation}
 	o.NodeActivatorsProb = []float64{1.0}
-	o.NewLinkTries = 2
+	o.NewLinkTries = tNewLinkTries
 	pr := func(n string) float64 {
 		p := vFloat("opt." + n)
 		vAssume(vAnd(p >= 0, p <= 1))
